@@ -235,7 +235,9 @@ def run_job(name, run, *, timeout_ms=60000, max_paths=20000, prune=True, prune_t
                 if mdl is not None:
                     v["model"] = mdl
                 if second and r in ("sat", "unsat"):
-                    r2 = solve.second_opinion(cons + proved, z3.Not(cf), timeout_s=max(10, timeout_ms // 1000))
+                    # an unsat verdict is cross-checked on the subset that proved it; a sat verdict on the full context
+                    r2 = solve.second_opinion(cons + proved, z3.Not(cf), timeout_s=min(30, max(10, timeout_ms // 1000)),
+                                              assertions=solve.LAST_ASSERTIONS if r == "unsat" else None)
                     v["second_solver"] = r2
                 verdicts.append(v)
             # undecided claims: try to falsify them at the concrete points that follow this path through
